@@ -125,6 +125,12 @@ def mutate(root, rnd, t, ops=None):
             op += ":" + c["cls"] + (":" + c["bucket"] if c["bucket"] else "")
         elif op == "corrupt-content-unicode":
             n.content = rnd.choice(UNICODE_POOL)
+        elif op == "corrupt-content-surrogate":
+            # a str that is not Unicode text (lone surrogate; a JSON document can carry it): what a validator says about it is
+            # not specified anywhere, but whatever validate.node says, validate.tree must say the same (C05)
+            leaves = [x for x in nodes if not x.children]
+            victim = rnd.choice(leaves) if leaves else n
+            victim.content = rnd.choice(["Gau\ud800ghan", "\udfff", "x\ud83d"])
         elif op == "add-attr":
             n.add_attribute(rnd.choice(["id", "zzAttr", "scope", "system", "xml:lang", "", "a:b:c", "::", "x:id", "{0}"]), rnd.choice(UNICODE_POOL))
         elif op == "remove-attr" and n.attributes:
